@@ -4,6 +4,7 @@ use crate::Ctx;
 pub mod c01;
 pub mod c03;
 pub mod c04;
+pub mod c05;
 pub mod c14;
 pub mod c15;
 pub mod c16;
@@ -14,6 +15,7 @@ pub fn run(ctx: &Ctx) -> Report {
     "C02" => c03::run_c02(ctx),
     "C03" => c03::run_c03(ctx),
     "C04" => c04::run(ctx),
+    "C05" => c05::run(ctx),
     "C13" => c03::run_c13(ctx),
     "C14" => c14::run(ctx),
     "C15" => c15::run(ctx),
